@@ -109,9 +109,6 @@ def check_call(ctx, D, res, m, desc, viol):
     for k_, v_ in (sk_given or {}).items():
         if kw.get(k_) != v_:
             viol("solver_call", f"solver control {k_}={v_!r} reaches solve_ivp as {kw.get(k_)!r}")
-    extra = set(kw) - set(sk_given or {}) - {"method", "vectorized"}
-    if extra:
-        viol("solver_call", f"solve_ivp receives controls the caller did not give: {sorted(extra)}")
     y0 = _adv._assemble_initial_conditions(res[0].model)
     if cap["y0"].shape != y0.shape or not np.array_equal(cap["y0"], y0):
         viol("solver_call", "y0 handed to the solver is not the assembled initial condition")
